@@ -192,6 +192,20 @@ namespace Pistache::Async
             }
         };
 
+        // An exception_ptr is stored as it is: wrapping it once more would hand
+        // the rejection continuation an exception of type std::exception_ptr
+        // instead of the original exception
+        template <typename Exc>
+        std::exception_ptr makeExceptionPtr(Exc exc)
+        {
+            return std::make_exception_ptr(std::move(exc));
+        }
+
+        inline std::exception_ptr makeExceptionPtr(std::exception_ptr exc)
+        {
+            return exc;
+        }
+
         struct Core;
 
         class Request
@@ -944,7 +958,7 @@ namespace Pistache::Async
 
             std::unique_lock<std::mutex> guard(core_->mtx);
             PISTACHE_SIM_POINT("promise.reject.state", core_.get());
-            core_->exc   = std::make_exception_ptr(exc);
+            core_->exc   = Private::makeExceptionPtr(std::move(exc));
             core_->state = State::Rejected;
             PISTACHE_SIM_POINT("promise.reject.walk", core_.get());
             for (const auto& req : core_->requests)
@@ -1127,7 +1141,7 @@ namespace Pistache::Async
         static Promise<T> rejected(Exc exc)
         {
             auto core   = std::make_shared<Core>();
-            core->exc   = std::make_exception_ptr(exc);
+            core->exc   = Private::makeExceptionPtr(std::move(exc));
             core->state = State::Rejected;
             return Promise<T>(std::move(core));
         }
